@@ -168,12 +168,12 @@ def run(prog: Program, rep: Report, tier: str):
             rep.bad("G4.selection-deps", fi, "indices-arg", "super().__init__ is called without the computed indices",
                     line=sc.lineno, clause="C03.4")
             continue
-        dep = Deps(fa)
+        dep = Deps(fa, asserts=False)
         have = {x[1] for x in dep.of(arg, sn) if x[0] == "param"}
         if isinstance(arg, ast.Name):
             have |= {x[1] for x in dep.of_var(arg.id, sn) if x[0] == "param"}
         for t_, lab in cfg.control_predicates(sn):
-            if cfg.nodes[t_].kind == "test":
+            if cfg.nodes[t_].kind == "test" and not isinstance(cfg.nodes[t_].owner, ast.Assert):
                 have |= {x[1] for x in dep.of(cfg.nodes[t_].ast, t_) if x[0] == "param"}
         # attributes that store parameters count through the attribute
         for n, var, val in fa.stores(f"{fa.self_name}."):
